@@ -25,7 +25,7 @@ RULE = (
 RULE += " added since: attribute values that are falsy (None, 0, '', False), every declaration mask per level, nested named blocks, two bases alternating on one lookup through a dynamic <%inherit>, keyword-only <%page args>."
 ASSUMPTIONS = ["reference resolution in checks/c06.py (from the statement)"]
 MIN_NONTRIVIAL = 200
-REQUIRED_COUNTERS = ["chains_rendered", "dispatch_calls_model", "blocks_rendered_model", "negative_cases", "page_args_received", "missing_member_errors_matched"]
+REQUIRED_COUNTERS = ["chains_rendered", "dispatch_calls_model", "blocks_rendered_model", "negative_cases", "page_args_received", "missing_member_errors_matched", "get_def_renders"]
 
 _st = {}
 DEFS = ["d0", "d1", "d2"]
@@ -103,8 +103,9 @@ class Missing(Exception):
 
 
 class Model:
-    def __init__(self, chain):
+    def __init__(self, chain, offset=0):
         self.T = chain
+        self.offset = offset  # index of chain[0] in the chain the texts were emitted for
         self.n = len(chain) - 1
         self.out = []
         self.calls = 0
@@ -149,7 +150,7 @@ class Model:
             elif k == "attr":
                 j = self.resolve(it[1], i, it[2], attr=True)
                 self.calls += 1
-                self.out.append(repr(attr_value(self.T[j], it[2], j)))
+                self.out.append(repr(attr_value(self.T[j], it[2], j + self.offset)))
             elif k == "block":
                 name = it[1]
                 if any(name in self.T[j]["blocks"] for j in range(i + 1, self.n + 1)):
@@ -216,6 +217,31 @@ def render_chain(chain, res, rc, note=None):
         res.violate("dispatch", "%s\nrendered %r\nexpected %r" % (what, got, exp), replay_case=rc)
     elif exp[0] == "exc":
         res.count("missing_member_errors_matched")
+    # every def and named block of every template of the chain, rendered on its own through get_def(): the template
+    # it is taken from is then the most-derived one (self/local are that template, parent its parent, no next)
+    if got[0] == "out" and exp[0] == "out":
+        for i in range(len(eff)):
+            for name in list(eff[i]["defs"]) + list(eff[i]["blocks"]):
+                m2 = Model(eff[i:], offset=i)
+                items = eff[i]["defs"][name] if name in eff[i]["defs"] else eff[i]["blocks"][name]["items"]
+                try:
+                    m2.run(items, 0, {})
+                    exp2 = ("out", "".join(m2.out))
+                except Missing:
+                    exp2 = ("exc", "AttributeError")
+                except (TypeError, KeyError):
+                    continue  # (needs page arguments that get_def() does not supply: not asserted)
+                try:
+                    got2 = ("out", lk.get_template("t%d.html" % i).get_def(name).render_unicode(**ctx))
+                except (AttributeError, NameError) as e:
+                    got2 = ("exc", "AttributeError", str(e))
+                except Exception as e:
+                    got2 = ("exc", type(e).__name__, str(e))
+                res.evaluations += 1
+                res.count("get_def_renders")
+                if got2[:2] != exp2:
+                    res.violate("get-def-dispatch", "%s\nt%d.html get_def(%r).render_unicode() gave %r\nexpected %r (t%d.html as the most-derived template)"
+                                % (what, i, name, got2, exp2, i), replay_case=rc)
     over = 0
     for name in DEFS + BLOCKS:
         if sum(1 for t in chain if name in t["defs"] or name in t["blocks"]) >= 2:
